@@ -41,7 +41,12 @@ def line_of(src, off):
 def find_fn(repo, rel, container, name, nth=1):
     src, toks, br, items = load_src(repo, rel)
     want = rlex.norm(container) if container != "-" else ""
-    cands = [it for it in items if it.kind == "fn" and it.name == name and rlex.norm(it.container) == want and it.body_open is not None]
+    def cont_match(h):
+        h = rlex.norm(h)
+        if h == want: return True
+        if " where " in h and h.split(" where ")[0].strip() == want: return True
+        return False
+    cands = [it for it in items if it.kind == "fn" and it.name == name and cont_match(it.container) and it.body_open is not None]
     if len(cands) < nth:
         raise VxError(f"lost anchor: fn `{name}` in `{container}` of {rel} not found ({len(cands)} candidates)")
     return src, toks, br, cands[nth - 1]
@@ -77,8 +82,49 @@ class FnSpec:
     def fid(self):
         return f"{self.container} :: {self.name}" if self.container != "-" else self.name
 
-def parse_template(path):
+def expand_includes(path, seen=None):
+    """returns list of lines with //@include directives replaced by the exported section of the named unit"""
+    seen = seen or set()
+    if path in seen:
+        raise VxError(f"template include cycle at {path}")
+    seen = seen | {path}
     lines = open(path, encoding="utf-8").read().split("\n")
+    out = []
+    for ln in lines:
+        st = ln.strip()
+        if st.startswith("//@include "):
+            unit = st.split()[1]
+            ip = os.path.join(os.path.dirname(path), unit + ".rs")
+            if not os.path.exists(ip):
+                raise VxError(f"template include: {ip} not found")
+            inc = expand_includes(ip, seen)
+            inside, got = False, False
+            saved_src = None
+            for l2 in inc:
+                s2 = l2.strip()
+                if s2.startswith("//@src ") and not inside:
+                    saved_src = l2
+                if s2 == "//@begin-export":
+                    inside, got = True, True
+                    out.append(f"// ---- begin include of unit {unit} ----")
+                    if saved_src: out.append(saved_src)
+                    continue
+                if s2 == "//@end-export":
+                    inside = False
+                    out.append(f"// ---- end include of unit {unit} ----")
+                    continue
+                if inside:
+                    out.append(l2)
+                elif s2.startswith("//@sub-all ") or s2.startswith("//@macro ") or s2.startswith("//@drop-macro "):
+                    out.append(l2)
+            if not got:
+                raise VxError(f"template include: unit {unit} has no //@begin-export section")
+        else:
+            out.append(ln)
+    return out
+
+def parse_template(path):
+    lines = expand_includes(path)
     out = []   # list of ("text", str) | ("fn", FnSpec)
     glob = {"src": None, "sub_all": [], "macros": {}, "unit": os.path.basename(path)[:-3], "serves": [], "drop_macros": set(DROP_MACROS)}
     i = 0
@@ -106,6 +152,13 @@ def parse_template(path):
                     glob["macros"][nm.strip()] = repl.strip()
                 elif kw == "drop-macro":
                     glob["drop_macros"].update(rest.split())
+                elif kw in ("begin-export", "end-export"):
+                    pass
+                elif kw == "const":
+                    # //@const NAME [@ file] : copy `const NAME: T = V;` verbatim from the source
+                    m = re.match(r"^([A-Za-z_][A-Za-z0-9_]*)\s*(?:@\s*(\S+))?$", rest)
+                    if not m: raise VxError(f"template line {i+1}: bad //@const")
+                    out.append(("const", (m.group(1), m.group(2) or glob["src"], i + 1)))
                 elif kw == "fn":
                     # //@fn <container> :: <name> [#n] [@ file]
                     m = re.match(r"^(.*?)\s*::\s*([A-Za-z_][A-Za-z0-9_]*)\s*(?:#(\d+))?\s*(?:@\s*(\S+))?$", rest)
@@ -298,6 +351,26 @@ def process_fn(repo, glob, fs, log):
     covered = []  # spans already replaced (to skip nested macros)
     def is_covered(off):
         return any(s <= off < e for (s, e) in covered)
+    # --- pre-pass: opaque blocks (E11) are replaced before anything inside them is looked at ---
+    for (kw, rest, payload, tl) in fs.directives:
+        what = f"{fs.name} (template line {tl})"
+        if kw == "opaque":
+            # //@opaque "async move {" [n] => "replacement": E11, replaces the whole brace block introduced by the needle
+            p = parse_quoted(rest)
+            qs = [x[1] for x in p if x[0] == "q"]
+            nth = 0
+            for x in p:
+                if x[0] == "w" and x[1].isdigit(): nth = int(x[1])
+            s0, e0 = find_text(src, lo, hi, qs[0], nth, what)
+            ob = None
+            for k in range(tlo, thi):
+                if toks[k].kind == "open" and toks[k].text == "{" and s0 <= toks[k].start < e0:
+                    ob = k
+            if ob is None:
+                raise VxError(f"lost anchor: {what}: opaque block `{qs[0]}` has no brace")
+            e1 = toks[br[ob]].end
+            ed.add(s0, e1, qs[1], "E11", "opaque block"); covered.append((s0, e1))
+            logrule("E11", s0, src[s0:e1], qs[1])
     for m in macros:
         name = m["name"]; nt = m["tok"]; op = m["open"]; cl = m["close"]
         start, end = toks[nt].start, toks[cl].end
@@ -358,7 +431,9 @@ def process_fn(repo, glob, fs, log):
             ed.add(lo, lo, " let mut __self = self; ", "E16", "mutself")
             logrule("E16", lo, "mut self", "self; let mut __self = self; (body: self -> __self)")
             continue
-        if kw == "loop":
+        if kw == "opaque":
+            continue
+        elif kw == "loop":
             loop_spec[int(rest.split()[0])] = "\n".join(payload)
         elif kw == "for":
             parts = rest.split()
@@ -489,6 +564,16 @@ def main():
         for kind, val in parts:
             if kind == "text":
                 out_lines.append((val, None))
+                continue
+            if kind == "const":
+                cname, crel, ctl = val
+                csrc = load_src(repo, crel)[0]
+                mm = re.search(r"^[ \t]*(?:pub(?:\([a-z]+\))?\s+)?const\s+" + re.escape(cname) + r"\s*:[^;]*;", csrc, re.M)
+                if not mm:
+                    raise VxError(f"lost anchor: const {cname} not found in {crel}")
+                ctext = re.sub(r"^\s*pub(\([a-z]+\))?\s+", "", mm.group(0).strip())
+                out_lines.append(("pub " + ctext, (crel, line_of(csrc, mm.start()))))
+                log.append({"fn": "const " + cname, "file": crel, "rule": "verbatim", "line": line_of(csrc, mm.start()), "before": mm.group(0).strip(), "after": "pub " + ctext})
                 continue
             fs = val
             r = process_fn(repo, glob, fs, log)
